@@ -37,12 +37,12 @@ package evaluator
 //@   let v = idx.(*numVal).V
 //@   let limit = ite(indexType == sliceExpression, length, length-1)
 //@   ensures[C11 ok-iff] err == nil <==> isIntegral(v) && float(-length) <= v && v <= float(limit)
-//@   ensures[C11 range] err == nil ==> 0 <= r && r <= limit
+//@   ensures[C11 C02 range] err == nil ==> 0 <= r && r <= limit
 //@   ensures[C11 norm] err == nil ==> r == normOf(v, length)
 //@   ensures[C11 value] err == nil ==> ite(v >= 0, float(r) == v, float(r-length) == v)
 //@   ensures[C11 bounds-kind] err != nil && isIntegral(v) && -9223372036854775808.0 <= v && v < 9223372036854775808.0 ==> wraps(err, ErrBounds)
 //@   ensures[C11 value-kind] !isIntegral(v) ==> wraps(err, ErrIndexValue)
-//@   ensures[C11 panic-kind] err != nil ==> wraps(err, ErrPanic)
+//@   ensures[C11 C02 panic-kind] err != nil ==> wraps(err, ErrPanic)
 //@   ensures[C11 zero] err != nil ==> r == 0
 //@   mustfail ensures[C11 canary] err == nil ==> r < limit
 //@   modifies nothing
@@ -58,9 +58,9 @@ package evaluator
 //@   let E = ite(end == nil, length, normOf(ev, length))
 //@   ensures[C11 ok-iff] err == nil <==> (start == nil || okBound(sv, length)) && (end == nil || okBound(ev, length)) && S <= E
 //@   ensures[C11 result] err == nil ==> s == S && e == E
-//@   ensures[C11 range] err == nil ==> 0 <= s && s <= e && e <= length
+//@   ensures[C11 C02 range] err == nil ==> 0 <= s && s <= e && e <= length
 //@   ensures[C11 slice-kind] (start == nil || okBound(sv, length)) && (end == nil || okBound(ev, length)) && err != nil ==> wraps(err, ErrSlice)
-//@   ensures[C11 panic-kind] err != nil ==> wraps(err, ErrPanic)
+//@   ensures[C11 C02 panic-kind] err != nil ==> wraps(err, ErrPanic)
 //@   ensures[C11 zero] err != nil ==> s == 0 && e == 0
 //@   modifies nothing
 
